@@ -63,6 +63,10 @@ func (c *Ctx) remoteHaltFamily(prefix string) {
 	c.ExpectAll(prefix+"/acquire-wait-pos", c.CallArgs(aq, p.PlainCalls("litefs.(*DB).WaitPosExact"), 2), pat("litefs.Client.AcquireHaltLock(@@)#0.Pos"), 1, "the position waited for is the granted lock's", "")
 	c.Before(prefix+"/acquire-store-before-wait", aq, p.PlainCalls("litefs.(*DB).WaitPosExact"), store, 1, "the reference is stored before waiting", "processLTXStreamFrame clears a stale reference when a frame arrives; the order is what makes that race benign")
 	_ = strings.TrimSpace
+	// release: the local reference is dropped on every path, also when no primary is known
+	c.Before(prefix+"/release-always-unsets", "litefs.(*DB).ReleaseRemoteHaltLock", IsReturn, p.PlainCalls("litefs.(*DB).UnsetRemoteHaltLock"), 2,
+		"every exit of ReleaseRemoteHaltLock has dropped the local reference (before looking for a primary to tell)", "a release while disconnected otherwise keeps the replica writable under a lock its holder believes released: it keeps publishing with the stale id until the TTL")
+
 }
 
 // primaryOnlyHandlers: the halt and forwarded-commit handlers do their work only
